@@ -336,6 +336,9 @@ func (c *channel) receiver() {
 
 		select {
 		case <-c.parentCtx.Done():
+			// the node is closed and nobody reads replies from now on:
+			// fail the calls that are still waiting for one.
+			c.cancelPendingMsgs()
 			return
 		default:
 		}
